@@ -1,15 +1,19 @@
 #!/bin/sh
-# seedall.sh: apply every saved seeded change in turn, run the check of the property it breaks, undo; report
-# caught / MISSED. Modifies /repo's working tree while it runs (do not run other checks at the same time).
+# seedall.sh: apply every saved seeded change in turn to a scratch worktree of /repo's HEAD, run the check of the
+# property it breaks against that worktree (VERIF_REPO), undo; report caught / MISSED. /repo itself is not touched, so
+# other checks may run at the same time. The worktree is removed at the end.
 cd /verif
+W=/root/.nrscratch/seedall-wt
+git -C /repo worktree remove --force $W 2>/dev/null
+git -C /repo worktree add -q --detach $W HEAD || exit 2
 for d in /verif/seeded/*/; do
   id=$(basename $d); prop=$(python3 -c "import json,sys; print(json.load(open('$d/meta.json'))['breaks_property'])")
-  if ! git -C /repo apply --check $d/patch.diff 2>/dev/null; then echo "$id $prop PATCH-DOES-NOT-APPLY"; continue; fi
-  git -C /repo apply $d/patch.diff
-  out=$(./tools/check $prop 2>&1); rc=$?
-  git -C /repo checkout -- .
+  if ! git -C $W apply --check $d/patch.diff 2>/dev/null; then echo "$id $prop PATCH-DOES-NOT-APPLY"; continue; fi
+  git -C $W apply $d/patch.diff
+  out=$(VERIF_REPO=$W ./tools/check $prop 2>&1); rc=$?
+  git -C $W checkout -- .
   n=$(echo "$out" | grep -c "^VIOLATION")
   nf=$(echo "$out" | grep "^VIOLATION" | grep -c "no-failing-input-found")
   if [ $rc -ne 0 ] && [ $n -gt 0 ]; then echo "$id $prop caught violations=$n without-input=$nf"; else echo "$id $prop MISSED rc=$rc"; fi
 done
-git -C /repo status --short | head -3
+git -C /repo worktree remove --force $W
